@@ -222,6 +222,14 @@ def gen_pool(rng, ctx):
         k = rng.randrange(len(ips))
         ips[k] = mutate_text(rng, ips[k])
         ctx.dist("pool:range-text-mutated")
+    elif rng.random() < 0.05 and ranges:
+        # an IPv6 literal whose LOW 32 bits lie inside the pool's IPv4 subnet (not the v4-mapped ::ffff: form): not an address
+        # of the subnet - the configuration must be rejected like any other range outside the subnet
+        k = rng.randrange(len(ips))
+        a, b = ranges[k][0] & 0xffffffff, ranges[k][1] & 0xffffffff
+        v6 = lambda x: "fe80::%x:%x" % (x >> 16, x & 0xffff)
+        ips[k] = rng.choice([v6(a), v6(a) + "~" + ip2s(b), ip2s(a) + "~" + v6(b)])
+        ctx.dist("pool:ipv6-literal-with-low-bits-in-subnet")
     nsn = rng.choice([1, 1, 2, 3])
     nodesubnets = []
     for _ in range(nsn):
@@ -395,6 +403,14 @@ def run(ctx):
             _, tree, probes, en = m
             if len(ctx.cov["samples"]) < 4 and o["res"] == "ok" and len(o["pool"]["ranges"]) > 1:
                 ctx.sample({"case": c, "observed": o})
+            # accepted_valid, textual half: an accepted configuration only names IPv4 addresses of its subnet - an IPv6 literal
+            # (other than the v4-mapped form) is not one, whatever its low 32 bits are
+            if o["res"] == "ok" and isinstance(tree, list):
+                ipsv = [v for k_, v in tree if isinstance(k_, str) and k_.lower() == "ips"]
+                texts = [t for t in (ipsv[-1] if ipsv and isinstance(ipsv[-1], list) else []) if isinstance(t, str)]
+                if any(":" in t and "::ffff:" not in t.lower() for t in texts):
+                    ctx.violation("monitor", "a configuration whose ips hold an IPv6 literal was ACCEPTED: the range is not inside the "
+                                  "pool's (IPv4) subnet (accepted_valid)", {"case": c, "obs": o}, found=True, theorem="accepted_valid")
             ce, me = pool_exprs(flags, tree, probes, en, o)
             corr.append(ce)
             idx_corr.append(i)
